@@ -48,6 +48,11 @@ SPEC = dict(
          'from a mode file) or six-seven consecutive 2 s timeouts, then recovery and a good read, every call within timeout + '
          'margin; quick: exit-1 through CmdSensor, garbage through CmdFan.GetPwm and the timeout streak through CmdSensor (~14 s, '
          'beside the persistent history); thorough: every kind plus a mixed run through all four wrappers. '
+         'Start-up scenarios (both tiers, sequential, ~3 s): configuration.CurrentConfig = a cmd sensor with a linear and a PID '
+         'curve on it, the real internal.InitializeObjects() with the command failing AT THE START-UP READ (exit 1 / garbage / no '
+         'exec bit / vanished / 2 s timeout / healthy) and healthy afterwards, then every curve is evaluated, the sensor polled '
+         'three times through updateSensor and the curves evaluated again; every step under a watchdog, a panic anywhere is '
+         'the observation crash (steps are api-6 cases: completes within the bound, never panics). '
          'Both drivers run in a fake desktop session: DISPLAY=:77, fake who / id / sudo / notify-send first in $PATH with a '
          'notification pipeline that takes 3 s, so a call that sends a desktop notification on an error path of command '
          'execution exceeds timeout + margin (on the unchanged tree none is sent: notify_calls stays empty).',
